@@ -34,6 +34,9 @@ pub struct FmtInfo {
     pub pieces: Vec<FmtPiece>,
     /// spans of the argument expressions, in `all_args()` order
     pub arg_spans: Vec<Span>,
+    /// source text of arguments that are plain literals (`0`, `'S'`, `"x"`): the lowering may inline them, so that no
+    /// HIR expression with that span is left to find
+    pub arg_lits: Vec<Option<String>>,
 }
 
 #[derive(Clone, Debug)]
@@ -141,7 +144,19 @@ impl<'ast, 'a> rustc_ast::visit::Visitor<'ast> for FmtCollector<'a> {
                 }
             }
             let arg_spans = fa.arguments.all_args().iter().map(|a| a.expr.span).collect();
-            self.out.insert(span_key(e.span), FmtInfo { pieces, arg_spans });
+            let arg_lits = fa
+                .arguments
+                .all_args()
+                .iter()
+                .map(|a| match &a.expr.kind {
+                    rustc_ast::ExprKind::Lit(l) => match l.kind {
+                        rustc_ast::token::LitKind::Integer | rustc_ast::token::LitKind::Bool => Some(l.symbol.as_str().to_string()),
+                        _ => None,
+                    },
+                    _ => None,
+                })
+                .collect();
+            self.out.insert(span_key(e.span), FmtInfo { pieces, arg_spans, arg_lits });
         }
         rustc_ast::visit::walk_expr(self, e);
     }
